@@ -274,9 +274,10 @@ func vXNewExporter(signal string, set exporter.Settings, opts []exporterhelper.O
 			pd := pprofile.NewProfiles()
 			rp := pd.ResourceProfiles().AppendEmpty()
 			rp.Resource().Attributes().PutStr("verif.id", vXID(id))
-			p := rp.ScopeProfiles().AppendEmpty().Profiles().AppendEmpty()
+			// one sample per profile: the profiles batcher splits between profiles, never inside one
+			sp := rp.ScopeProfiles().AppendEmpty()
 			for k := 0; k < items; k++ {
-				p.Sample().AppendEmpty()
+				sp.Profiles().AppendEmpty().Sample().AppendEmpty()
 			}
 			return e.ConsumeProfiles(ctx, pd)
 		}}, nil
